@@ -486,14 +486,19 @@ class PrintNode(visitor.Visitor):
 
     def visit_BinaryOp(self, node):
         right = self.visit(node.right)
-        if node.right.__class__.__name__ == "UnaryOp":
+        if right[:1] in ("+", "-"):
             # "a - -b" must not be printed as "a--b" (a decrement in C,
             # two consecutive operators in Fortran).
+            # Also "a - -b * 2" where the right operand is a product.
             right = "(" + right + ")"
         return self.visit(node.left) + node.op + right
 
     def visit_UnaryOp(self, node):
-        return node.op + self.visit(node.node)
+        operand = self.visit(node.node)
+        if operand[:1] in ("+", "-"):
+            # "- -5" must not be printed as "--5".
+            operand = "(" + operand + ")"
+        return node.op + operand
 
     def visit_ParenExpr(self, node):
         return "(" + self.visit(node.node) + ")"
